@@ -44,6 +44,9 @@ type Solver struct {
 	axiomSet map[int]bool
 	curTimeout int
 	TooLarge   int
+	fb         map[string]*Solver
+	isFallback bool
+	NFallback  int // queries decided by a fallback solver
 }
 
 // MaxNewTerms bounds the number of term nodes a single query may add to the solver.
@@ -156,6 +159,10 @@ func (s *Solver) start() error {
 }
 
 func (s *Solver) Close() {
+	for _, f := range s.fb {
+		f.Close()
+	}
+	s.fb = nil
 	if s.cmd != nil && s.cmd.Process != nil {
 		s.in.Close()
 		s.cmd.Process.Kill()
@@ -337,7 +344,62 @@ func (s *Solver) readSexp() (string, error) {
 
 // Check decides satisfiability of the conjunction of asserts. If sat and want != nil, values of the wanted
 // terms are returned (by term id).
+// Check decides the conjunction of asserts. A query the primary solver leaves undecided (unknown, timeout, death)
+// is handed once to each fallback solver (cvc5 1.0, then z3 5.1.0; same definitions, same axioms, same timeout):
+// the three bit-vector back ends fail on different kernels - e.g. a 36-bit urem by 2^31-1 inside a cipher step is
+// unknown for z3 4.8.12 after 20 s and sat for cvc5 in 3 s. A verdict is only ever taken from one solver's answer;
+// disagreement cannot arise here because the fallbacks are consulted only when the primary gave no answer.
 func (s *Solver) Check(asserts []*Term, want []*Term) (Result, map[int]uint64) {
+	tl0 := s.TooLarge
+	r, m := s.check1(asserts, want)
+	if r != Unknown || s.isFallback || NoFallback || s.TooLarge != tl0 {
+		return r, m
+	}
+	for _, kind := range []string{"cvc5", "z3-new"} {
+		if kind == s.Kind {
+			continue
+		}
+		if s.fb == nil {
+			s.fb = map[string]*Solver{}
+		}
+		f := s.fb[kind]
+		if f == nil {
+			var err error
+			f, err = NewSolver(s.Ctx, kind, s.TimeoutMs)
+			if err != nil {
+				continue
+			}
+			f.isFallback = true
+			s.fb[kind] = f
+		}
+		for _, a := range s.axioms {
+			f.AddAxiom(a)
+		}
+		if s.curTimeout > 0 {
+			f.SetTimeout(s.curTimeout)
+		}
+		t0 := time.Now()
+		r2, m2 := f.check1(asserts, want)
+		s.Time += time.Since(t0)
+		f.TakeErrors()
+		if r2 != Unknown {
+			s.NFallback++
+			s.NUnknown--
+			if r2 == Sat {
+				s.NSat++
+			} else {
+				s.NUnsat++
+			}
+			return r2, m2
+		}
+	}
+	return r, m
+}
+
+// NoFallback disables the fallback solvers (SYMGO_NOFALLBACK=1).
+var NoFallback = os.Getenv("SYMGO_NOFALLBACK") != ""
+
+func (s *Solver) check1(asserts []*Term, want []*Term) (Result, map[int]uint64) {
 	if s.dead {
 		if err := s.start(); err != nil {
 			s.Errors = append(s.Errors, "restart failed: "+err.Error())
@@ -352,9 +414,10 @@ func (s *Solver) Check(asserts []*Term, want []*Term) (Result, map[int]uint64) {
 	// (whole-cipher disequalities over dozens of clocks: z3 does not come back and takes gigabytes)
 	if n := s.countNew(append(append([]*Term{}, asserts...), want...), MaxNewTerms); n > MaxNewTerms {
 		s.NUnknown++
-		s.Errors = append(s.Errors, fmt.Sprintf("query not attempted: more than %d new term nodes", MaxNewTerms))
-		s.Errors = s.Errors[:len(s.Errors)-1]
 		s.TooLarge++
+		if os.Getenv("SYMGO_TRACE") != "" {
+			fmt.Fprintf(os.Stderr, "   QUERY NOT ATTEMPTED: more than %d new term nodes (%d asserts, %d wanted values)\n", MaxNewTerms, len(asserts), len(want))
+		}
 		return Unknown, nil
 	}
 	// watchdog over definition and solving: z3's own timeout is not always honoured
